@@ -8,7 +8,7 @@
               parse_proto(encode_proto(v)) = strip_defaults(v); otherwise no panic. *)
 From Coq Require Import String.
 From Coq Require Import List NArith ZArith Bool Arith.
-From VRL Require Import Base.Bytes Base.Value Base.Lit Model.Proto Model.ProtoGlue.
+From VRL Require Import Base.Bytes Base.Value Base.Lit Model.Proto Model.ProtoGlue Proofs.ProtoShapedProofs.
 Import ListNotations.
 
 Inductive ires := IOk (b : bytes) | IErr | IPanic.
@@ -16,7 +16,8 @@ Inductive vres := VOk (v : value) | VErr | VPanic | VNone.
 
 Inductive case :=
 | CRt (P : pool) (ty : nat) (lossy : bool) (unordered : bool) (gen_shaped : bool) (v : value) (enc : ires) (dec : vres)
-| CDec (P : pool) (ty : nat) (b : bytes) (dec : vres).
+| CDec (P : pool) (ty : nat) (b : bytes) (dec : vres)
+| CPool (P : pool).       (* the structural conditions the theorems assume of a descriptor pool *)
 
 Definition vres_agrees (m : pres value) (i : vres) : bool :=
   match m, i with
@@ -50,6 +51,7 @@ Definition check (c : case) : bool :=
           end
       end
   | CDec P ty b dec => vres_agrees (parse_proto P (get_msg P ty) b) dec
+  | CPool P => pool_okb P
   end.
 
 Definition oracle (c : case) : bool :=
@@ -61,6 +63,7 @@ Definition oracle (c : case) : bool :=
       else negb gen_shaped        (* a value the generator built as message-shaped must be `shaped` *)
            && match enc, dec with IPanic, _ | _, VPanic => false | _, _ => true end
   | CDec _ _ _ dec => match dec with VPanic => false | _ => true end
+  | CPool _ => true
   end.
 
 (* what the model says, for replay files: (encoding, its parse, shaped?, strip_defaults) *)
@@ -71,4 +74,5 @@ Definition model_out (c : case) :=
       let e := encode_proto P lossy d v in
       (e, match enc with IOk ib => parse_proto P d ib | _ => PErr end, shaped P d v, strip_defaults P d v)
   | CDec P ty b dec => (POk b, parse_proto P (get_msg P ty) b, false, VNull)
+  | CPool P => (PErr, PErr, pool_okb P, VNull)
   end.
